@@ -877,7 +877,7 @@ class Gen(object):
             op = self._gen_kind(kind)
             if op is None: continue
             if op['op'] in READ_OPS: self.last_read = op
-            elif op['op'] in MOD_OPS and op.get('oid') is not None and r.random() < getattr(self, 'followup_rate', 0.12):
+            elif op['op'] in MOD_OPS and op.get('oid') is not None and r.random() < getattr(self.eng, 'followup_rate', getattr(self, 'followup_rate', 0.12)):
                 # patterns that need three cooperating steps: the object just changed is written on its own by
                 # obj.flush(), and then either the previous read is repeated (its cached answer must not survive) or
                 # the session is rolled back (what obj.flush() wrote must not stay in the database)
